@@ -104,7 +104,7 @@ STEP_WEIGHTS = {
 }
 
 
-def random_program(rng, spec, nsteps, weights=None, nkeys=3, nvals=4, allow_class_switch=False):
+def random_program(rng, spec, nsteps, weights=None, nkeys=3, nvals=4, allow_class_switch=False, autoflush=False):
     """The generator keeps a shadow of which entities exist so that most steps are applicable."""
     info = entity_info(spec)
     w = dict(STEP_WEIGHTS)
@@ -116,6 +116,8 @@ def random_program(rng, spec, nsteps, weights=None, nkeys=3, nvals=4, allow_clas
     shadow = {}       # (cls, pk, attr) -> val
     prog = []
     deleted_uncommitted = set()
+    committed_exists = {}
+    committed_class_of = {}
     sp_open = [0]
     sp_exists = [{}]
     sp_flushed = [False]
@@ -139,6 +141,10 @@ def random_program(rng, spec, nsteps, weights=None, nkeys=3, nvals=4, allow_clas
 
     for _ in range(nsteps):
         kind = rng.choice(kinds)
+        if autoflush and sp_open[0]:
+            # with an autoflushing session any load inside the savepoint may flush: such a savepoint is released,
+            # never rolled back (open finding F-SP)
+            sp_flushed[0] = True
         if kind in ('add', 'readd'):
             cname = rng.choice(classes)
             pk = rand_pk(cname)
@@ -227,8 +233,11 @@ def random_program(rng, spec, nsteps, weights=None, nkeys=3, nvals=4, allow_clas
         elif kind == 'rollback':
             sp_open[0] = 0
             prog.append(['rollback'])
-            # shadow of existence is approximate after rollback: drop everything not known committed
-            exists = dict(getattr(random_program, '_committed', {})) if False else exists
+            # back to the shadow of the last commit (existence and class of every key)
+            exists = dict(committed_exists)
+            class_of = dict(committed_class_of)
+            deleted_unflushed.clear()
+            deleted_uncommitted.clear()
         else:
             if kind == 'commit' and sp_open[0]:
                 prog.append(['sp_commit'])
@@ -240,6 +249,9 @@ def random_program(rng, spec, nsteps, weights=None, nkeys=3, nvals=4, allow_clas
                 deleted_unflushed.clear()
             if kind in ('commit', 'rollback'):
                 deleted_uncommitted.clear()
+            if kind == 'commit':
+                committed_exists = dict(exists)
+                committed_class_of = dict(class_of)
     if sp_open[0]:
         prog.append(['sp_commit'])
     prog.append(['commit'])
